@@ -17,7 +17,7 @@
 
     Everything the soundness argument hinges on and that is a small code fact is a field of
     [facts], REGENERATED from the source on every run (GenFnSymFacts.v) and pinned in PropsC06.v. *)
-From FnSym Require Export PyLang SymLang.
+From FnSym Require Export PyLang SymLang ExpectedFacts.
 
 Inductive crel := RelGt | RelGe | RelLt | RelLe | RelEq | RelNe | StructEq | StructNe | RelUnknown.
 Inductive subs_mode := SubsSim | SubsSeq | SubsUnknown.
@@ -55,7 +55,9 @@ Record facts := mkFacts {
   f_kw_refused : bool;               (* _handle_call refuses keyword arguments *)
   f_const_float : bool;              (* ast.Constant int/float -> sympy.Float(val) *)
   f_known_wrapped : bool;            (* KNOWN_FNS results go through sympy.Float(...) (symbolic args refuse) *)
-  f_const : const_mode               (* when module / attribute float constants are read *)
+  f_const : const_mode;              (* when module / attribute float constants are read *)
+  f_fallback : fb_mode;              (* a body that falls off its end: last assigned variable / ValueError *)
+  f_arity : arity_mode               (* zip(fn_args, model_args, strict=True) and when it is skipped *)
 }.
 
 Definition symtab := list (name * sexpr).
@@ -66,13 +68,26 @@ Inductive tresult := TOk (e : sexpr) | TRefused | TOutOfFuel.
 Definition apply_subs (fs : facts) (ps : list name) (margs : list sexpr) (e : sexpr) : option sexpr :=
   match margs with
   | [] => Some e                                   (* `model_args is not None and len(model_args)` *)
-  | _ => if Nat.eqb (length ps) (length margs)     (* zip(..., strict=True) -> ValueError *)
-         then match f_subs fs with
-              | SubsSim => Some (subs_sim (combine ps margs) e)
-              | SubsSeq => Some (subs_seq (combine ps margs) e)
-              | SubsUnknown => None
-              end
-         else None
+  | _ =>
+      let sub := match f_subs fs with
+                 | SubsSim => Some (subs_sim (combine ps margs) e)
+                 | SubsSeq => Some (subs_seq (combine ps margs) e)
+                 | SubsUnknown => None
+                 end in
+      match f_arity fs with
+      | ArityStrict | ArityStrictNonEmpty =>        (* zip(..., strict=True) -> ValueError *)
+          if Nat.eqb (length ps) (length margs) then sub else None
+      | ArityTruncate => sub                         (* zip(...) stops at the shorter list ([combine] does) *)
+      | ArityUnknown => None
+      end
+  end.
+
+(** a NESTED call hands over a list (never None): with `if model_args is not None:` (ArityStrict) the empty
+    list is zipped strictly as well, so `helper()` of a helper with parameters refuses *)
+Definition nested_arity_ok (fs : facts) (ps : list name) (sargs : list sexpr) : bool :=
+  match f_arity fs, sargs, ps with
+  | ArityStrict, [], _ :: _ => false
+  | _, _, _ => true
   end.
 
 Definition rel_of (r : crel) (a b : sexpr) : option scond :=
@@ -102,7 +117,7 @@ Section Translate.
     match osargs with
     | Some sargs =>
         match nth_error S (N.to_nat f) with
-        | Some (Some (ps, body)) => apply_subs fs ps sargs body
+        | Some (Some (ps, body)) => if nested_arity_ok fs ps sargs then apply_subs fs ps sargs body else None
         | _ => None                     (* py_fn is None / callee has no expression *)
         end
     | None => None
@@ -212,9 +227,13 @@ Section Translate.
     end.
 
   Definition fallback (body : stmts) (sigma : symtab) : tresult :=
-    match last_assign body None with
-    | Some x => match assoc x sigma with Some s => TOk s | None => TRefused end
-    | None => TRefused                       (* ValueError: No return value found *)
+    match f_fallback fs with
+    | FbLastAssigned =>
+        match last_assign body None with
+        | Some x => match assoc x sigma with Some s => TOk s | None => TRefused end
+        | None => TRefused                   (* ValueError: No return value found *)
+        end
+    | _ => TRefused                          (* repaired code: always that ValueError *)
     end.
 
   Definition lift (o : option sexpr) : tresult := match o with Some e => TOk e | None => TRefused end.
@@ -466,13 +485,28 @@ Definition fn_to_sympy (fs : facts) (fds : list fundef) (i : nat) (margs : list 
   | _ => None
   end.
 
+(** the guard under which the shipped arity rule is sound: no definition has ALL its parameters defaulted
+    (so `helper()` of a helper with parameters is a TypeError in Python, where nothing is claimed) *)
+Definition guard_fd (fd : fundef) : bool :=
+  match fd_params fd with
+  | [] => true
+  | _ => Nat.ltb (length (fd_defaults fd)) (length (fd_params fd))
+  end.
+
+Definition arity_ok (fs : facts) (fds : list fundef) : Prop :=
+  match f_arity fs with
+  | ArityStrict => True
+  | ArityStrictNonEmpty => forallb guard_fd fds = true
+  | _ => False
+  end.
+
 (** the facts of the code the theorems are proved for *)
 Definition expected_facts : facts :=
   mkFacts
     [(Add, Add); (Sub, Sub); (Mul, Mul); (Div, Div); (Pow, Pow); (Mod, Mod); (FloorDiv, FloorDiv)]
     [(UAdd, UAdd); (USub, USub)]
     [(Gt, RelGt); (GtE, RelGe); (Lt, RelLt); (LtE, RelLe); (CEq, RelEq); (CNe, RelNe)]
-    true SubsSim TupSim StmtRaise (CfContinuation BrCopy BrCopy) true true true ConstAtCall.
+    true SubsSim TupSim StmtRaise (CfContinuation BrCopy BrCopy) true true true ConstAtCall C06_expected_fallback C06_expected_arity.
 
 (** --- helpers for the correspondence files ------------------------------------------------ *)
 Definition val_of (l : list (name * Q)) : valuation := fun x => match assoc x l with Some q => Some (Qred q) | None => None end.
